@@ -112,9 +112,10 @@ fn same<T: Prim>(a: T, b: T) -> bool {
     let sign_mask = if T::NAME == "f32" { 0x7fff_ffffu64 } else { u64::MAX >> 1 };
     (x & sign_mask).abs_diff(y & sign_mask) <= 4
 }
-/// min/max on two zeros of different sign (and NaN propagation) is not pinned down by std
+/// min/max on two zeros of different sign is the one case std does not pin down ("if one of the
+/// arguments is NaN, then the other argument is returned" is documented, so NaN pairs are judged)
 fn unspecified_pair<T: Prim>(name: &str, a: T, b: T) -> bool {
-    (name == "min" || name == "max") && ((a == T::of_f64(0.0) && b == T::of_f64(0.0)) || a.nan() || b.nan())
+    (name == "min" || name == "max") && a == T::of_f64(0.0) && b == T::of_f64(0.0) && a.bits() != b.bits()
 }
 
 fn catalogue<T: Prim>() -> Vec<T> {
@@ -391,7 +392,7 @@ where
 pub fn run(tier: Tier) -> i32 {
     let mut rep = Report::new("C19", tier);
     rep.rule = "function pointers and constants obtained from FloatOpsFactory::<f32|f64>::make() and the same names through parsed expressions, compared for identical special-value behaviour (NaN, infinities, signed zeros) and equality within 4 ulp otherwise with the harness' own name -> std primitive table; arguments: special-value catalogue (all ordered pairs), bit-pattern lattices, and (thorough) every f32 bit pattern for unary operators; every evaluation is a distinct non-trivial case".into();
-    rep.assumptions = vec!["min/max on two zeros or with NaN are not pinned down by the Rust primitive and are skipped".into(), "libm determinism: the same primitive on the same argument gives the same bits within one process".into()];
+    rep.assumptions = vec!["min/max on two zeros of different sign are not pinned down by the Rust primitive and are skipped".into(), "libm determinism: the same primitive on the same argument gives the same bits within one process".into()];
     install_panic_hook();
     check_direct::<f64>(&mut rep);
     check_direct::<f32>(&mut rep);
